@@ -299,7 +299,7 @@ def param_list(ctx):
             if tr == 'ws_only' and ctx.quick:
                 continue
             for cs in pairs:
-                for dh in (('record', 'yield') if ctx.quick else DH):
+                for dh in (('record', 'yield') if ctx.quick else ('record', 'yield', 'raise')):
                     ps.append({'impl': impl, 'transport': tr, 'causes': list(cs), 'dh': dh})
             ps.append({'impl': impl, 'transport': tr, 'causes': [causes[0]], 'dh': 'record', 'mh': 'raise'})
             for cs in ([causes[0]], ['api_disc'], ['silence']):
